@@ -14,7 +14,7 @@ import hmac
 import random
 import re
 import time
-from binascii import hexlify
+from binascii import Error as Base64Error, hexlify
 from hashlib import md5
 
 from zope.interface import Interface, implementer
@@ -316,7 +316,10 @@ class DigestCredentialFactory:
             clientip = clientip.encode("ascii")
 
         # Verify the key
-        key = base64.b64decode(opaqueParts[1])
+        try:
+            key = base64.b64decode(opaqueParts[1])
+        except (Base64Error, ValueError):
+            raise error.LoginFailed("Invalid response, invalid opaque value")
         keyParts = key.split(b",")
 
         if len(keyParts) != 3:
